@@ -8,6 +8,23 @@ from common import *
 import tables
 
 
+def decl_of(q):
+    """the unit attributes of a definition as written: kind, identifier, symbol,
+    prefix identifier, scale literal text (None if absent) — for the oracles"""
+    out = []
+    for a in q["raw"]["attrs"]:
+        if a.get("path") not in ("unit", "ref_unit"):
+            continue
+        toks = a.get("tokens", [])
+        ident = next((t["v"] for t in toks if t["t"] == "ident"), None)
+        strs = [t["lit"]["v"] for t in toks if t["t"] == "lit" and t["lit"]["k"] == "str"]
+        idents = [t["v"] for t in toks if t["t"] == "ident"]
+        nums = [t["lit"].get("digits") or t["lit"].get("text") for t in toks if t["t"] == "lit" and t["lit"]["k"] in ("int", "float")]
+        out.append({"kind": a["path"], "ident": ident, "symbol": strs[0] if strs else None,
+                    "prefix": idents[1] if len(idents) > 1 else None, "lit": nums[0] if nums else None})
+    return out
+
+
 def main():
     jpath, repo, outdir = sys.argv[1], sys.argv[2], sys.argv[3]
     d = json.load(open(jpath, encoding="utf-8"))
@@ -40,7 +57,7 @@ def main():
                          "prefixes": dict(e["g"]["prefix_arms"]),
                          "ref_unit": e["g"]["ref_unit_qty"],
                          "derived": [t.get("v") for t in e["q"]["args"]],
-                         "impls": e["g"]["impls"]} for e in entries]}
+                         "impls": e["g"]["impls"], "decl": decl_of(e["q"])} for e in entries]}
     write_if_changed(os.path.join(outdir, "gen_info.json"), json.dumps(info, indent=1, ensure_ascii=False))
     print("generated: " + (", ".join(changed) if changed else "(no change)"))
 
